@@ -1,5 +1,5 @@
-(* Extraction of the channel model (C07).  ExtrOcamlBasic only. *)
+(* Extraction of the channel model (C07): several channels on one event set.  ExtrOcamlBasic only. *)
 Require Extraction.
 Require Import ExtrOcamlBasic.
-From DesVerif Require Import Channel.Model.
-Extraction "chan.ml" Channel.Model.run.
+From DesVerif Require Import Channel.Multi.
+Extraction "chan.ml" Channel.Multi.run.
